@@ -85,6 +85,12 @@ func DateTimeFromProto(proto *dtpb.DateTime) (DateTime, error) {
 	case dtpb.DateTime_YEAR:
 		l = dtYearLayout
 	}
+	switch proto.Precision {
+	case dtpb.DateTime_DAY, dtpb.DateTime_MONTH, dtpb.DateTime_YEAR:
+		// A partial dateTime carries no time zone: keep the calendar date the element denotes,
+		// at UTC midnight, exactly as a parsed partial literal is represented.
+		t = time.Date(t.Year(), t.Month(), t.Day(), 0, 0, 0, 0, time.UTC)
+	}
 	return DateTime{t, l}, nil
 }
 
